@@ -10,8 +10,8 @@ Open Scope list_scope.
 
 (* one step of ANY operation of the alphabet (ds[k] = array, del ds[k], renames through the dataset,
    through a variable or in bulk, ds.dims = ..., set_axis, ds.axes[d] = Axis, ds.axes[d][i] = label,
-   rename_keys) - successful or rejected - keeps every variable's axes among the dataset's own axis
-   objects *)
+   rename_keys, an axis appended directly) - successful or rejected - keeps every variable's axes among the dataset's
+   own axis objects *)
 Theorem C13_step_shared : forall s o, Shared s -> Shared (fst (ds_step s o)).
 Proof. exact step_shared. Qed.
 Print Assumptions C13_step_shared.
@@ -24,10 +24,12 @@ Print Assumptions C13_reachable_shared.
    its variables, distinct dimension names, distinct keys - for histories over the WHOLE alphabet: assignments (new
    or replacing, with fewer / more / other dimensions), deletions, relabellings, ds.dims = and rename_axes (simultaneous,
    through the validated dims setter), rename_keys of one key (onto a free key or onto the key of another variable, which
-   is then deleted first), construction from a dict: all without side condition; and - with [op_ok]: the new name is
-   fresh or unchanged at the moment it is given - renames of one axis (through the dataset or through a variable),
-   set_axis(name=), axis replacements, and rename_keys of several keys at once (simultaneous;
-   [renkeys_ok]: old keys given once, new keys distinct and not among the keys that stay - a swap or a cycle qualifies) *)
+   is then deleted first), set_axis (labels and / or name: the name of another dimension is refused), construction from a
+   dict: all without side condition; and - with [op_ok]: the new name is fresh or unchanged at the moment it is given -
+   renames of one axis (through the dataset or through a variable), axis replacements, and rename_keys of several keys
+   at once (simultaneous; [renkeys_ok]: old keys given once, new keys distinct and not among the keys that stay - a swap or
+   a cycle qualifies).  Axes appended directly (used by no variable) are outside this invariant: [op_ok] excludes them;
+   sharing, above, holds with them. *)
 Theorem C13_step_invariant : forall s o, Inv4 s -> op_ok s o -> Inv4 (fst (ds_step s o)).
 Proof. exact step_inv. Qed.
 Print Assumptions C13_step_invariant.
